@@ -1,2 +1,3 @@
 pub mod drive;
 pub mod reverse;
+pub mod limits;
